@@ -168,7 +168,9 @@ type chainModel struct {
 }
 
 // markDone tells whether a context with this marker is cancelled: "!" marks a cancellation, "+" a detachment.
-func markDone(mark string) bool { return strings.LastIndexByte(mark, '!') > strings.LastIndexByte(mark, '+') }
+func markDone(mark string) bool {
+	return strings.LastIndexByte(mark, '!') > strings.LastIndexByte(mark, '+')
+}
 
 // handDown computes the marker of the context a stage hands on.
 func handDown(st StageSc, mark string, i, k int) string {
